@@ -14,7 +14,7 @@ def run(tier):
         chk.note_inconclusive(f"cast pairs exercised {result['cast']} of {exp}")
     chk.layer('A', cast_events=len(evs), types=len({e['type'] for e in evs}), components_checked=sum(e['n'] for e in evs),
               note='first two value sets per pair are distinct integers per slot (slot preservation, exact); the rest are values not representable in the '
-                   'narrower type, compared bit for bit with static_cast per component; converting construction and converting assignment; '
+                   'narrower type (random mantissas; the whole source range; when narrowing also the midpoints of neighbouring destination values and the source values within two source ulps of them, where a cast through an intermediate type rounds twice), compared bit for bit with static_cast per component; converting construction and converting assignment; '
                    'widen-then-narrow identity; directions: within two ulps of the coarser type')
     chk.count(evaluations=sum(e['n'] for e in evs), distinct=len(evs))
     chk.cov['rule'] = 'one event per (type, ordered pair of distinct numeric types): 96 types x 6; each summarises n component casts'
